@@ -235,8 +235,9 @@ class C14:
             return t
 
         def is_quot(t):
-            c = canon(t)
-            return c[0] == "div" and c[1] in D_terms and c[2] == canon(hop)
+            from sa.canon import lin
+            want = [lin(("bin", "/", d, hop)) for d in (("attr", clip, "duration"), ("bin", "-", ("attr", clip, "end_time"), ("attr", clip, "start_time")))]
+            return lin(t) in want
 
         b = strip_int(bound)
         k = 0
